@@ -75,14 +75,14 @@ Section SortFacts.
 
   Lemma count_run_perm l : Permutation (fst (count_run lt l) ++ snd (count_run lt l)) l.
   Proof.
-    destruct l as [|x [|y rest]]; simpl; try (rewrite ?app_nil_r; apply Permutation_refl).
-    destruct (lt y x).
-    - pose proof (take_desc_app y rest) as E. destruct (take_desc lt y rest) as [r t]. simpl in *.
-      rewrite <- E at 2.
+    destruct l as [|x [|y rest]]; try (simpl; rewrite ?app_nil_r; apply Permutation_refl).
+    cbn [count_run]. destruct (lt y x).
+    - pose proof (take_desc_app y rest) as E. destruct (take_desc lt y rest) as [r t].
+      cbn [fst snd] in *. subst rest.
       change (x :: y :: r ++ t) with ((x :: y :: r) ++ t).
       apply Permutation_app_tail. symmetry. apply (Permutation_rev (x :: y :: r)).
-    - pose proof (take_asc_app y rest) as E. destruct (take_asc lt y rest) as [r t]. simpl in *.
-      rewrite E. apply Permutation_refl.
+    - pose proof (take_asc_app y rest) as E. destruct (take_asc lt y rest) as [r t].
+      cbn [fst snd] in *. subst rest. apply Permutation_refl.
   Qed.
 
   Theorem pysort_perm l : Permutation (pysort lt l) l.
@@ -124,3 +124,273 @@ Section SortFacts.
     intros y' Hy'. apply H. right; right; exact Hy'.
   Qed.
 End SortFacts.
+
+(* ---------- _split_fused_types ---------- *)
+Definition is_mem (t : ctype) : bool := match t with TMem _ _ _ => true | _ => false end.
+Definition is_obj (t : ctype) : bool := match t with TObject => true | _ => false end.
+
+Lemma py_name_obj t : py_type_name t = Some PObject <-> t = TObject.
+Proof. destruct t as [[]| | | |]; simpl; split; intros H; try discriminate; reflexivity. Qed.
+Lemma py_name_none t : py_type_name t = None <-> is_mem t = true.
+Proof. destruct t as [[]| | | |]; simpl; split; intros H; try discriminate; reflexivity. Qed.
+
+Lemma split_buffers l : forall seen acc,
+  buffers (split_go seen l acc) = buffers acc ++ filter is_mem l.
+Proof.
+  induction l as [|t tl IH]; intros seen acc; simpl; [now rewrite app_nil_r|].
+  destruct (py_type_name t) as [p|] eqn:E.
+  - assert (M : is_mem t = false).
+    { destruct (is_mem t) eqn:M; [|reflexivity]. apply py_name_none in M. congruence. }
+    rewrite M. destruct (existsb (pyname_eqb p) seen); [apply IH|].
+    destruct p; rewrite IH; reflexivity.
+  - apply py_name_none in E. rewrite E. rewrite IH. simpl. now rewrite <- app_assoc.
+Qed.
+
+Lemma split_has_obj l : forall seen acc,
+  (existsb (pyname_eqb PObject) seen = true -> has_obj acc = true) ->
+  has_obj (split_go seen l acc) = has_obj acc || existsb is_obj l.
+Proof.
+  induction l as [|t tl IH]; intros seen acc Hinv; simpl; [now rewrite orb_false_r|].
+  destruct (py_type_name t) as [p|] eqn:E.
+  - destruct (existsb (pyname_eqb p) seen) eqn:S.
+    + rewrite IH by exact Hinv.
+      destruct (is_obj t) eqn:O; [|reflexivity].
+      destruct t; try discriminate. simpl in E. injection E as <-.
+      rewrite (Hinv S). reflexivity.
+    + destruct p; try (rewrite IH; [ | simpl; exact Hinv]; simpl;
+        destruct t as [[]| | | |]; simpl in *; try discriminate; reflexivity).
+      rewrite IH by (intros _; reflexivity). simpl.
+      apply py_name_obj in E. subst t. simpl. now rewrite orb_true_r.
+  - rewrite IH by exact Hinv. simpl. apply py_name_none in E. destruct t; try discriminate. reflexivity.
+Qed.
+
+(* the instance tests: dropping later members with an already seen py_type_name does not
+   change the first hit *)
+Lemma inst_of_name a t t' p : py_type_name t = Some p -> py_type_name t' = Some p -> inst_of a t = inst_of a t'.
+Proof. unfold inst_of. intros -> ->. reflexivity. Qed.
+
+Lemma find_app {A} (f : A -> bool) l1 l2 :
+  find f (l1 ++ l2) = match find f l1 with Some x => Some x | None => find f l2 end.
+Proof. induction l1 as [|x l1 IH]; simpl; [reflexivity|]. destruct (f x); [reflexivity|exact IH]. Qed.
+
+Lemma split_find a l : forall seen acc,
+  (forall p, existsb (pyname_eqb p) seen = true -> p <> PObject ->
+             exists t, In t (normal acc) /\ py_type_name t = Some p) ->
+  find (inst_of a) (normal (split_go seen l acc)) =
+  match find (inst_of a) (normal acc) with
+  | Some t => Some t
+  | None => find (fun t => inst_of a t && negb (is_obj t)) l
+  end.
+Proof.
+  induction l as [|t tl IH]; intros seen acc Hinv; simpl.
+  - destruct (find (inst_of a) (normal acc)); reflexivity.
+  - destruct (py_type_name t) as [p|] eqn:E.
+    + destruct (existsb (pyname_eqb p) seen) eqn:S.
+      * rewrite IH by exact Hinv.
+        destruct (find (inst_of a) (normal acc)) eqn:F; [reflexivity|].
+        destruct (is_obj t) eqn:O; [now rewrite andb_false_r|]. rewrite andb_true_r.
+        assert (Hp : p <> PObject).
+        { intros ->. apply py_name_obj in E. subst t. discriminate. }
+        destruct (Hinv p S Hp) as [t' [Hin Hn]].
+        rewrite (inst_of_name a t t' p E Hn).
+        rewrite (find_none _ _ F t' Hin). reflexivity.
+      * destruct (is_obj t) eqn:O.
+        -- destruct t; try discriminate. simpl in E. injection E as <-.
+           rewrite IH; [now rewrite andb_false_r|].
+           intros p Hp Hne. simpl in Hp. apply orb_true_iff in Hp. destruct Hp as [Hp|Hp].
+           ++ apply pyname_eqb_eq in Hp. congruence.
+           ++ apply (Hinv p Hp Hne).
+        -- rewrite andb_true_r.
+           assert (Hgo : split_go (p :: seen) tl
+                     {| normal := normal acc ++ [t]; buffers := buffers acc; has_obj := has_obj acc |} =
+                   match p with
+                   | PObject => split_go (p :: seen) tl {| normal := normal acc; buffers := buffers acc; has_obj := true |}
+                   | _ => split_go (p :: seen) tl {| normal := normal acc ++ [t]; buffers := buffers acc; has_obj := has_obj acc |}
+                   end).
+           { destruct p; try reflexivity. apply py_name_obj in E. subst t. discriminate. }
+           rewrite <- Hgo. rewrite IH.
+           ++ simpl. rewrite find_app. simpl.
+              destruct (find (inst_of a) (normal acc)); [reflexivity|].
+              destruct (inst_of a t); reflexivity.
+           ++ intros q Hq Hne. simpl in Hq. apply orb_true_iff in Hq. destruct Hq as [Hq|Hq].
+              ** apply pyname_eqb_eq in Hq. subst q. exists t. simpl. split; [apply in_or_app; right; now left|exact E].
+              ** destruct (Hinv q Hq Hne) as [t' [Hin Hn]]. exists t'. simpl. split; [apply in_or_app; now left|exact Hn].
+    + rewrite IH by exact Hinv. cbn [normal].
+      destruct (find (inst_of a) (normal acc)); [reflexivity|].
+      assert (Hi : inst_of a t = false) by (unfold inst_of; now rewrite E).
+      rewrite Hi. reflexivity.
+Qed.
+
+Lemma buffer_checks_nil fx a : buffer_checks fx [] a = None.
+Proof. destruct a; try reflexivity. simpl. destruct (has_dtype b); reflexivity. Qed.
+
+(* C34 main structural fact: the generated type mapper, in terms of the sorted member list *)
+Definition map_spec (fastfix : bool) (s : list ctype) (a : atag) : option ctype :=
+  match find (fun t => inst_of a t && negb (is_obj t)) s with
+  | Some t => Some t
+  | None => match buffer_checks fastfix (filter is_mem s) a with
+            | Some t => Some t
+            | None => if existsb is_obj s then Some TObject else None
+            end
+  end.
+
+Theorem map_fused_spec fx idlt ms a :
+  map_fused fx idlt ms a = map_spec fx (pysort (ty_lt idlt) ms) a.
+Proof.
+  unfold map_fused, map_spec, split_fused. set (s := pysort (ty_lt idlt) ms).
+  rewrite split_find by (intros p Hp; discriminate).
+  rewrite split_buffers, split_has_obj by (intros Hp; discriminate). simpl.
+  destruct (find _ s); [reflexivity|].
+  destruct (filter is_mem s) eqn:F; [now rewrite buffer_checks_nil|reflexivity].
+Qed.
+
+(* ---------- the selected member accepts the examined argument ---------- *)
+Definition contig_safe (ms : list ctype) (a : atag) : Prop :=
+  forall b t, a = ABuf b -> In t ms -> fast_ok t b = true -> coerce_ok t b = true.
+
+Lemma inst_conv a t : inst_of a t = true -> conv t a = COk.
+Proof.
+  unfold inst_of. destruct t as [[r g| |r|r]| |b|k|n d m]; simpl; destruct a; simpl; intros H;
+    try discriminate; try reflexivity; rewrite H; reflexivity.
+Qed.
+
+Lemma coerce_conv t b : coerce_ok t b = true -> conv t (ABuf b) = COk.
+Proof. destruct t; simpl; try discriminate. intros H. unfold coerce_ok in H. simpl. rewrite H. reflexivity. Qed.
+
+Lemma buffer_checks_sound fx bufs a t :
+  buffer_checks fx bufs a = Some t -> (forall u, In u bufs -> is_mem u = true) ->
+  (fx = true \/ contig_safe bufs a) -> In t bufs /\ conv t a = COk.
+Proof.
+  intros H Hm Hs. destruct a; simpl in H; try discriminate.
+  - destruct bufs as [|u tl]; simpl in H; [discriminate|]. injection H as <-.
+    split; [now left|]. specialize (Hm u (or_introl eq_refl)). destruct u; try discriminate. reflexivity.
+  - destruct (if has_dtype b then find (fun t0 => if fx then coerce_ok t0 b else fast_ok t0 b) bufs else None)
+      as [u|] eqn:F.
+    + injection H as <-. destruct (has_dtype b); [|discriminate].
+      apply find_some in F. destruct F as [Hin Hp]. split; [exact Hin|].
+      apply coerce_conv. destruct fx; [exact Hp|].
+      destruct Hs as [Hs|Hs]; [discriminate|]. apply (Hs b u eq_refl Hin Hp).
+    + apply find_some in H. destruct H as [Hin Hp]. split; [exact Hin|]. now apply coerce_conv.
+Qed.
+
+Theorem map_fused_sound fx idlt ms a t :
+  map_fused fx idlt ms a = Some t -> (fx = true \/ contig_safe ms a) ->
+  In t ms /\ conv t a = COk.
+Proof.
+  rewrite map_fused_spec. unfold map_spec. set (s := pysort (ty_lt idlt) ms). intros H Hs.
+  destruct (find (fun t0 => inst_of a t0 && negb (is_obj t0)) s) as [u|] eqn:F.
+  - injection H as <-. apply find_some in F. destruct F as [Hin Hp].
+    apply andb_true_iff in Hp. destruct Hp as [Hp _].
+    split; [now apply (pysort_in (ty_lt idlt) ms u)|now apply inst_conv].
+  - destruct (buffer_checks fx (filter is_mem s) a) as [u|] eqn:B.
+    + injection H as <-.
+      apply buffer_checks_sound in B.
+      * destruct B as [Hin Hc]. split; [|exact Hc].
+        apply filter_In in Hin. now apply (pysort_in (ty_lt idlt) ms u).
+      * intros u' Hu'. now apply filter_In in Hu'.
+      * destruct Hs as [Hs|Hs]; [now left|right].
+        intros b t0 Ha Hin. apply Hs; [exact Ha|]. apply filter_In in Hin.
+        now apply (pysort_in (ty_lt idlt) ms t0).
+    + destruct (existsb is_obj s) eqn:O; [|discriminate]. injection H as <-.
+      apply existsb_exists in O. destruct O as [u [Hin Hu]]. destruct u; try discriminate.
+      split; [now apply (pysort_in (ty_lt idlt) ms TObject)|reflexivity].
+Qed.
+
+(* ---------- the dispatcher ---------- *)
+Lemma dests_spec fx idlt args fts : forall ds,
+  fold_right (fun ft acc =>
+                match acc, nth_error args (fpos ft) with
+                | Some l, Some a => Some (map_fused fx idlt (members ft) a :: l)
+                | _, _ => None end) (Some []) fts = Some ds ->
+  Forall2 (fun ft dj => exists a, nth_error args (fpos ft) = Some a /\
+                                  dj = map_fused fx idlt (members ft) a) fts ds.
+Proof.
+  induction fts as [|ft tl IH]; intros ds H; simpl in H.
+  - injection H as <-. constructor.
+  - destruct (fold_right _ (Some []) tl) as [l|] eqn:E; [|discriminate].
+    destruct (nth_error args (fpos ft)) as [a|] eqn:N; [|discriminate].
+    injection H as <-. constructor; [exists a; split; [exact N|reflexivity]|]. now apply IH.
+Qed.
+
+Lemma all_sigs_in mss : forall s, In s (all_sigs mss) <-> Forall2 (fun t ms => In t ms) s mss.
+Proof.
+  induction mss as [|ms tl IH]; intros s; simpl.
+  - split; [intros [<-|[]]; constructor|intros H; inversion H; now left].
+  - rewrite in_flat_map. split.
+    + intros [m [Hm Hs]]. apply in_map_iff in Hs. destruct Hs as [s' [<- Hs']].
+      constructor; [exact Hm|now apply IH].
+    + intros H. inversion H as [|t ms' s' mss' Ht Hs']; subst.
+      exists t. split; [exact Ht|]. apply in_map. now apply IH.
+Qed.
+
+Lemma sig_match_sound : forall fts ds s (P : ftype -> option ctype -> Prop),
+  Forall2 P fts ds -> Forall2 (fun t ms => In t ms) s (map members fts) -> sig_match s ds = true ->
+  Forall2 (fun ft t => In t (members ft) /\ (P ft (Some t) \/ P ft None)) fts s.
+Proof.
+  induction fts as [|ft tl IH]; intros ds s P HP Hs Hm.
+  - inversion Hs; subst. constructor.
+  - inversion HP as [|ft' dj tl' ds' Hp Hps]; subst.
+    simpl in Hs. inversion Hs as [|t ms s' mss Ht Hs']; subst.
+    simpl in Hm. destruct dj as [u|].
+    + apply andb_true_iff in Hm. destruct Hm as [He Hm]. apply ctype_eqb_eq in He. subst u.
+      constructor; [split; [exact Ht|now left]|]. apply (IH ds' s' P Hps Hs' Hm).
+    + constructor; [split; [exact Ht|now right]|]. apply (IH ds' s' P Hps Hs' Hm).
+Qed.
+
+(* C34: whatever the dispatcher returns is a signature of the function; for every fused type
+   whose examined argument was mapped to a member, that member is the one in the signature,
+   it belongs to the fused type and its C type takes the argument *)
+Theorem dispatch_sound fx idlt d args sig :
+  dispatch_cy fx idlt d args = Spec sig ->
+  (fx = true \/ forall ft a, In ft (ftypes d) -> nth_error args (fpos ft) = Some a -> contig_safe (members ft) a) ->
+  Forall2 (fun ft t => In t (members ft) /\
+             exists a, nth_error args (fpos ft) = Some a /\
+               (map_fused fx idlt (members ft) a = Some t /\ conv t a = COk \/
+                map_fused fx idlt (members ft) a = None)) (ftypes d) sig.
+Proof.
+  unfold dispatch_cy, dests. intros H Hs.
+  destruct (negb _); [discriminate|].
+  destruct (fold_right _ (Some []) (ftypes d)) as [ds|] eqn:E; [|discriminate].
+  apply dests_spec in E.
+  assert (Hsafe : forall ft a, In ft (ftypes d) -> nth_error args (fpos ft) = Some a ->
+                   fx = true \/ contig_safe (members ft) a).
+  { intros ft a Hin Hn. destruct Hs as [Hs|Hs]; [now left|right; now apply Hs]. }
+  assert (Hgen : forall s, Forall2 (fun t ms => In t ms) s (map members (ftypes d)) -> sig_match s ds = true ->
+     Forall2 (fun ft t => In t (members ft) /\
+             exists a, nth_error args (fpos ft) = Some a /\
+               (map_fused fx idlt (members ft) a = Some t /\ conv t a = COk \/
+                map_fused fx idlt (members ft) a = None)) (ftypes d) s).
+  { intros s Hin Hm.
+    pose proof (sig_match_sound (ftypes d) ds s _ E Hin Hm) as F.
+    clear - F Hsafe. revert F Hsafe. generalize (ftypes d) as fts.
+    induction 1 as [|ft t fts s [Hin Hor] _ IH]; intros Hsafe; constructor.
+    - split; [exact Hin|]. destruct Hor as [[a [Hn Hd]]|[a [Hn Hd]]]; exists a; (split; [exact Hn|]).
+      + left. split; [now symmetry|]. symmetry in Hd.
+        apply (map_fused_sound fx idlt (members ft) a t Hd). apply (Hsafe ft a); [now left|exact Hn].
+      + right. now symmetry.
+    - apply IH. intros ft' a' Hin'. apply Hsafe. now right. }
+  destruct ds as [|one [|two rest]].
+  - (* no fused type: filter over [[]] *)
+    destruct (filter _ _) as [|s [|]] eqn:F; try discriminate.
+    injection H as <-.
+    assert (Hi : In s (filter (fun s => sig_match s []) (all_sigs (map members (ftypes d))))) by (rewrite F; now left).
+    apply filter_In in Hi. destruct Hi as [Hin Hm]. apply all_sigs_in in Hin. now apply Hgen.
+  - destruct one as [t|]; [|discriminate]. injection H as <-.
+    inversion E as [|ft dj fts ds' [a [Hn Hd]] Hrest Ef]; subst. inversion Hrest; subst.
+    constructor; [|constructor]. symmetry in Hd.
+    destruct (map_fused_sound fx idlt (members ft) a t Hd) as [Hin Hc].
+    { apply (Hsafe ft a); [rewrite <- Ef; now left|exact Hn]. }
+    split; [exact Hin|]. exists a. split; [exact Hn|]. left. now split.
+  - destruct (filter _ _) as [|s [|]] eqn:F; try discriminate.
+    injection H as <-.
+    assert (Hi : In s (filter (fun s => sig_match s (one :: two :: rest)) (all_sigs (map members (ftypes d))))) by (rewrite F; now left).
+    apply filter_In in Hi. destruct Hi as [Hin Hm]. apply all_sigs_in in Hin. now apply Hgen.
+Qed.
+
+(* parameters that share a fused type are specialised with the same member: the C type of
+   parameter i is looked up in the single signature through its fused type index *)
+Definition param_type (sig : list ctype) (d : decl) (i : nat) : option ctype :=
+  match nth_error (params d) i with Some j => nth_error sig j | None => None end.
+Theorem same_fused_same_member sig d i j :
+  nth_error (params d) i = nth_error (params d) j -> param_type sig d i = param_type sig d j.
+Proof. unfold param_type. intros ->. reflexivity. Qed.
